@@ -49,6 +49,11 @@ def run(ctx) -> None:
     r19_2(ctx)
     r19_3(ctx)
     r19_4(ctx)
+    from . import c03
+    from .common import Relabel
+    ctx.rule("R19.6", "sync / apply work for every kind of callable (def, async def, partial, callable object): no attribute that "
+                      "only some of them have (__name__, __qualname__) is read unconditionally (R03.10, shared)")
+    c03.r03_10(Relabel(ctx, "R19.6"), modules=("asynctools",))
     from .common import keywords_cannot_collide
     ctx.rule("R19.5", "apply: every split of the target's arguments into positional and keyword awaitables is accepted - the "
                       "function to apply is positional-only, so no keyword name is taken by apply itself")
